@@ -72,7 +72,8 @@ class C32(Prop):
           "an equal list; a copy with one field edited, one record dropped, two different adjacent "
           "records swapped or one record duplicated strips to an unequal list. Reference oracle: "
           "stripped(text) equals the non-empty lines without their leading '[timestamp] ' computed "
-          "independently; a single line (no newline) strips to that line without its timestamp. "
+          "independently, also for the traces with their surrounding blank lines trimmed (two records: exactly "
+          "one newline character); a single line (no newline) strips to that line without its timestamp. "
           "Non-trivial: >=2 records with >=1 perturbation applied; distinct = distinct case digests.")
   assumptions = [
     "chart/signal names contain no str.splitlines() boundary character and chart names no ']'",
@@ -182,6 +183,17 @@ class C32(Prop):
         if (sa == sb) != expect_equal:
           raise PropertyViolation("traces %r and %r (%s) compare %s after stripping" % (
             a, b, mode, "equal" if sa == sb else "unequal"), "C32:equivalence")
+      if len(recs) >= 2 and len(recs_b) >= 2:
+        # the same traces with their surrounding blank lines trimmed are still several lines
+        ta_, tb_ = a.strip(" \t\n"), b.strip(" \t\n")
+        with stripped(ta_) as ta, stripped(tb_) as tb:
+          if not isinstance(ta, list) or list(ta) != ra:
+            raise PropertyViolation("stripped(%r) gave %r, expected %r" % (ta_, ta, ra), "C32:reference")
+          if not isinstance(tb, list) or list(tb) != rb:
+            raise PropertyViolation("stripped(%r) gave %r, expected %r" % (tb_, tb, rb), "C32:reference")
+          if (ta == tb) != expect_equal:
+            raise PropertyViolation("trimmed traces %r and %r (%s) compare %s after stripping" % (
+              ta_, tb_, mode, "equal" if ta == tb else "unequal"), "C32:equivalence")
       line = fmt(iso(case["stamps_a"][0]), recs[0])
       with stripped(line) as one:
         want = line[line.index("] ") + 2:]
